@@ -89,7 +89,11 @@ let rec go tgt c js ts =
     ||
     (match ts with
      | e :: r -> (match apply_t tgt c e with Some c' -> go tgt c' js r | None -> false)
-     | [] -> false)
+     | [] ->
+       (* the target's records may be cut off when logging stops: unobserved suffix *)
+       (match pct c with
+        | PDone | PIdle -> false
+        | _ -> if ((fst c).ag n1).blocked then false else go tgt (stepc tgt c n1) js []))
 
 let field s pre =
   let lp = String.length pre in
